@@ -36,6 +36,10 @@ type Case struct {
 	// every input is first mapped through the reference sanitizer, so that all inputs are ones
 	// "the sanitizer leaves unchanged" and the registry's raw-key/sanitized-key paths are both used
 	WithSan bool `json:"withSan,omitempty"`
+	// Scratch: the caller builds every Tagged argument in ONE reused map object (cleared and
+	// refilled per call, and filled with junk afterwards) - a common caller pattern; identities
+	// must not depend on what happens to the caller's map after the call returned
+	Scratch bool `json:"scratch,omitempty"`
 }
 
 func str() *rapid.Generator[pbt.S] {
@@ -172,6 +176,7 @@ func gen(t *rapid.T) Case {
 	c.B = derive(t, "b", P2, E2)
 	c.Metric = str().Draw(t, "metric")
 	c.WithSan = rapid.IntRange(0, 2).Draw(t, "withSan") == 0
+	c.Scratch = rapid.IntRange(0, 2).Draw(t, "scratch") == 0
 	return c
 }
 
@@ -180,7 +185,7 @@ type scopeInfo struct {
 	keys []string
 }
 
-func apply(root tally.Scope, mroot model.Scope, steps []Step, all *[]scopeInfo) (tally.Scope, model.Scope) {
+func apply(root tally.Scope, mroot model.Scope, steps []Step, all *[]scopeInfo, scratch map[string]string) (tally.Scope, model.Scope) {
 	s, ms := root, mroot
 	for _, st := range steps {
 		if st.Sub != nil {
@@ -190,12 +195,24 @@ func apply(root tally.Scope, mroot model.Scope, steps []Step, all *[]scopeInfo) 
 			var m map[string]string
 			if !st.Nil {
 				m = map[string]string{}
+				if scratch != nil {
+					m = scratch
+					for k := range m {
+						delete(m, k)
+					}
+				}
 				for _, kv := range st.Tags {
 					m[string(kv.K)] = string(kv.V)
 				}
 			}
 			s = s.Tagged(m)
 			ms = ms.Tagged(m)
+			if scratch != nil && !st.Nil {
+				for k := range m {
+					m[k] += "~reused"
+				}
+				m["~junk"] = "x"
+			}
 		}
 		*all = append(*all, scopeInfo{ms, []string{model.LibKey(ms.Prefix, ms.Tags)}})
 	}
@@ -243,11 +260,15 @@ func run(c Case) (pbt.Outcome, error) {
 	root, _ := tally.VerifNewRootScope(opts, 0, c.Shards)
 	mroot := model.NewRoot("", "", nil, nil)
 	all := []scopeInfo{{mroot, []string{model.LibKey("", nil)}}}
-	sa, ma := apply(root, mroot, c.A, &all)
-	sb, mb := apply(root, mroot, c.B, &all)
+	var scratch map[string]string
+	if c.Scratch {
+		scratch = map[string]string{}
+	}
+	sa, ma := apply(root, mroot, c.A, &all, scratch)
+	sb, mb := apply(root, mroot, c.B, &all, scratch)
 	// once more: idempotence of the whole derivation
 	var all2 []scopeInfo
-	sa2, _ := apply(root, mroot, c.A, &all2)
+	sa2, _ := apply(root, mroot, c.A, &all2, scratch)
 
 	// classification against the recorded delimiter ambiguity
 	ambiguous := false
